@@ -105,6 +105,34 @@ pub fn case(ctx: &Ctx, w: usize, h: usize, k: u64, rep: &mut Report) {
     }
     // a picture of another size on the same decoder: a new intra picture, or a (disposable) predicted
     // picture made of intra macroblocks only - its planes must have the size its own header states
+    // ... or a run of intra pictures that keep the sample count and change the shape (transposed, other
+    // factorizations of the same area) - buffers sized by area alone would fit and be wrong
+    if flavour.sorenson() && rng.chance(1, 4) {
+        let area = w * h;
+        let shapes: Vec<(usize, usize)> = (1..=area).filter(|d| area % d == 0 && *d <= 4000 && area / d <= 4000).map(|d| (d, area / d)).collect();
+        for step in 0..2 + rng.below(3) {
+            let (w2, h2) = *rng.pick(&shapes);
+            let mut c2 = gen_cfg(&mut rng, flavour, w2, h2);
+            c2.tr = cfg.tr.wrapping_add(2 + step as u8);
+            c2.wide_levels = false;
+            let b2 = gen_intra(&mut rng, &c2).encode();
+            rep.evaluations += 1;
+            let coords2 = || J::obj().set("property", "C13").set("tier", ctx.tier_name()).set("seed", ctx.seed).set("stage", ctx.stage.clone()).set("w", w).set("h", h).set("k", k).set("what", format!("same-area run, step {}: {}x{}", step, w2, h2));
+            match dec.decode(&b2) {
+                Outcome::Ok => {
+                    if !pipeline(&dec, w2, h2, c2.quant, rep, &coords2) {
+                        return;
+                    }
+                    rep.count("same_area_reshaped_pictures_postprocessed");
+                }
+                Outcome::Panic { msg, loc } => {
+                    rep.violation(format!("panic@{}", loc), format!("{}x{} picture in a same-area run after {}x{} panicked: {}", w2, h2, w, h, msg), coords2());
+                    return;
+                }
+                Outcome::Err(e) => rep.count(&format!("skipped:reshaped:{}", e)),
+            }
+        }
+    }
     if rng.chance(1, 3) {
         let (w2, h2) = if flavour.sorenson() { (1 + rng.below(90) as usize, 1 + rng.below(90) as usize) } else { (4 * (1 + rng.below(22) as usize), 4 * (1 + rng.below(22) as usize)) };
         let mut c2 = gen_cfg(&mut rng, flavour, w2, h2);
@@ -222,6 +250,7 @@ pub fn run(ctx: &Ctx) -> (Report, String) {
     if ctx.is_main() && ctx.scale_pct == 100 {
         rep.require("pictures_postprocessed", (maxd * maxd * ks as usize) as u64 * 95 / 100);
         rep.require("p_pictures_postprocessed", 1000);
+        rep.require("same_area_reshaped_pictures_postprocessed", 1000);
         for k in ["resized:intra", "resized:predicted-all-intra", "resized:disposable-all-intra"] {
             rep.require(k, 300);
         }
